@@ -320,6 +320,9 @@ impl<T: Send + Sync + 'static> Puppet<T> {
                         }
                     }
                     m.push(opt::DEFER);
+                    if !quiet_only && budget {
+                        m.push(opt::DATA_TERM);
+                    }
                     m
                 },
                 PMode::Pullable => {
@@ -342,6 +345,10 @@ impl<T: Send + Sync + 'static> Puppet<T> {
                 opt::DEFER => {
                     with(|ex| ex.subs[s as usize].deferred += 1);
                     rec(Ev::Defer(s));
+                },
+                opt::DATA_TERM => {
+                    self.emit(s, opt::DATA);
+                    self.emit(s, opt::TERM);
                 },
                 c => self.emit(s, c),
             }
@@ -475,7 +482,7 @@ impl<T: Send + Sync + 'static> Probe<T> {
         }
         match choose_opt(Kind::Dev, What::React(p, mk), &menu) {
             opt::NOTHING => {},
-            c if (opt::DISPOSE_OTHER0..opt::DISPOSE_OTHER0 + 8).contains(&c) => {
+            c if (opt::DISPOSE_OTHER0..opt::DISPOSE_OTHER0 + 6).contains(&c) => {
                 if let Some(d) = probe_driver(c - opt::DISPOSE_OTHER0) {
                     d.act(opt::TERM);
                 }
